@@ -159,6 +159,13 @@ func (r *AliasResult) pass(fn *ssa.Function) bool {
 			if v, ok := ins.(ssa.Value); ok && r.cfg.Source != nil && r.cfg.Source(fn, v) {
 				mark(v, 2)
 			}
+			if r.cfg.Source != nil {
+				for _, op := range ins.Operands(nil) {
+					if g, ok := (*op).(*ssa.Global); ok && r.cfg.Source(fn, g) {
+						mark(g, 2)
+					}
+				}
+			}
 			switch x := ins.(type) {
 			case *ssa.Slice:
 				mark(x, t[x.X])
@@ -353,6 +360,10 @@ func (r *AliasResult) events(fn *ssa.Function) {
 				if t[x.Addr] == 2 {
 					r.WritesThrough = append(r.WritesThrough, AliasSite{Fn: fn, Ins: ins, What: "store through a pointer into aliased memory"})
 				}
+			case *ssa.MapUpdate:
+				if t[x.Map] == 2 {
+					r.WritesThrough = append(r.WritesThrough, AliasSite{Fn: fn, Ins: ins, What: "update of an aliased map"})
+				}
 			case ssa.CallInstruction:
 				cm := x.Common()
 				if bi, ok := cm.Value.(*ssa.Builtin); ok {
@@ -360,6 +371,10 @@ func (r *AliasResult) events(fn *ssa.Function) {
 					case "copy":
 						if t[cm.Args[0]] == 2 {
 							r.WritesThrough = append(r.WritesThrough, AliasSite{Fn: fn, Ins: ins, What: "copy() into aliased memory"})
+						}
+					case "delete":
+						if t[cm.Args[0]] == 2 {
+							r.WritesThrough = append(r.WritesThrough, AliasSite{Fn: fn, Ins: ins, What: "delete from an aliased map"})
 						}
 					case "append":
 						if t[cm.Args[0]] == 2 {
